@@ -235,6 +235,10 @@ func appendLimitQuery(b *goqu.SelectDataset, limit *int64, maxLimit uint) *goqu.
 	if limit != nil {
 		l = min(l, uint(*limit))
 	}
+	if l == 0 {
+		// goqu's Limit(0) removes the limit clause; a zero limit selects nothing
+		return b.Where(goqu.L("0"))
+	}
 	if l != NoLimit {
 		b = b.Limit(l)
 	}
